@@ -5,6 +5,7 @@
                                           the repository's own suite passes with the patch (3 runs)
   seedtool.py run <seed-dir> <Cxx> [...]  apply the patch to /repo, run the quick checks of the given properties,
                                           undo the patch; prints which checks raised a VIOLATION
+  seedtool.py lane <seed-dir> <Cxx> [...] the same against a scratch copy of /repo and the harness under /tmp/seedlane
   seedtool.py keep <seed-dir> <id>        copy patch.diff, demo.rs, notes.md and meta.json to /verif/seeded/<id>/
 
 <seed-dir> contains patch.diff, demo.rs, notes.md (as written by the seeding agents).
@@ -68,6 +69,58 @@ def verify(seed):
     return 0 if res["ok"] else 1
 
 
+LANE = "/tmp/seedlane"
+
+
+def lane(seed, props):
+    """Like run, but in a persistent scratch lane (/tmp/seedlane) instead of /repo: a worktree of /repo's HEAD
+    with the patch applied, a copy of the harness pointing at it, its own target directory."""
+    seed = os.path.abspath(seed)
+    repo, harness = os.path.join(LANE, "repo"), os.path.join(LANE, "harness")
+    os.makedirs(LANE, exist_ok=True)
+    head = sh(["git", "-C", REPO, "rev-parse", "HEAD"])[1].strip()
+    if not os.path.exists(os.path.join(repo, ".git")):
+        sh(["git", "-C", REPO, "worktree", "prune"])
+        rc, out = sh(["git", "-C", REPO, "worktree", "add", "-q", "--detach", repo, "HEAD"])
+        if rc != 0:
+            print(out)
+            return 2
+    sh(["git", "checkout", "-q", "--detach", head], cwd=repo)
+    sh(["git", "checkout", "--", "."], cwd=repo)
+    shutil.copy(os.path.join(REPO, "Cargo.lock"), repo)
+    sh(["rsync", "-a", "--delete", "--exclude", "target", os.path.join(VERIF, "harness") + "/", harness + "/"])
+    for f in ("drivers/Cargo.toml", "loomshadow/Cargo.toml"):
+        p = os.path.join(harness, f)
+        if os.path.exists(p):
+            t = open(p).read().replace('"/repo"', '"%s"' % repo).replace('"/repo/', '"%s/' % repo)
+            open(p, "w").write(t)
+    rc, out = sh(["git", "apply", os.path.join(seed, "patch.diff")], cwd=repo)
+    if rc != 0:
+        print("patch does not apply:", out)
+        return 2
+    env = dict(os.environ, VERIF_HARNESS=harness, VERIF_TARGET=os.path.join(LANE, "target"), VERIF_OUT=os.path.join(LANE, "out"), VERIF_REPO=repo)
+    results = {}
+    try:
+        for p in props:
+            t0 = time.time()
+            rc, out = sh([os.path.join(VERIF, "check"), p, "quick"], cwd=VERIF, env=env, timeout=3600)
+            viol = [l for l in out.splitlines() if l.startswith("VIOLATION")]
+            sigs = [l.strip() for l in out.splitlines() if l.strip().startswith("sig=")]
+            results[p] = dict(exit=rc, violations=len(viol), first_sigs=[s[:260] for s in sigs[:4]], wall=round(time.time() - t0, 1), how="scratch lane (worktree of /repo HEAD %s + patch)" % head[:7])
+            print("%s: exit=%d violations=%d %s" % (p, rc, len(viol), (sigs[0][:200] if sigs else "")), flush=True)
+            if rc == 2:
+                print(out[-1500:])
+    finally:
+        sh(["git", "checkout", "--", "."], cwd=repo)
+    prev = {}
+    path = os.path.join(seed, "checks.json")
+    if os.path.exists(path):
+        prev = json.load(open(path))
+    prev.update(results)
+    json.dump(prev, open(path, "w"), indent=1)
+    return 0
+
+
 def run(seed, props):
     seed = os.path.abspath(seed)
     rc, out = sh(["git", "-C", REPO, "status", "--porcelain", "--untracked-files=no"])
@@ -121,6 +174,8 @@ if __name__ == "__main__":
         sys.exit(verify(a[1]))
     if len(a) >= 3 and a[0] == "run":
         sys.exit(run(a[1], a[2:]))
+    if len(a) >= 3 and a[0] == "lane":
+        sys.exit(lane(a[1], a[2:]))
     if len(a) == 3 and a[0] == "keep":
         sys.exit(keep(a[1], a[2]))
     print(__doc__)
